@@ -632,13 +632,13 @@ impl IceTransportRunner {
                     inner.config.ice_disconnect_threshold
                 };
                 if elapsed > ice_conn_timeout {
-                    let _ = inner.state.send(IceTransportState::Failed);
+                    set_state_unless_closed(&inner, IceTransportState::Failed);
                 } else if elapsed > disconnect_threshold {
                     if state != IceTransportState::Disconnected {
-                        let _ = inner.state.send(IceTransportState::Disconnected);
+                        set_state_unless_closed(&inner, IceTransportState::Disconnected);
                     }
                 } else if state == IceTransportState::Disconnected {
-                    let _ = inner.state.send(IceTransportState::Connected);
+                    set_state_unless_closed(&inner, IceTransportState::Connected);
                 }
             }
 
@@ -1649,6 +1649,21 @@ impl IceTransport {
     }
 }
 
+/// State write of the transport's own tasks (connectivity checks, nomination, keepalive,
+/// inbound STUN handling). `stop()` is final for them: a task that was in flight when the
+/// transport was stopped must not overwrite `Closed` with `Connected` / `Failed` /
+/// `Disconnected` (the owner would see a stopped transport come back to life, without sockets).
+fn set_state_unless_closed(inner: &IceTransportInner, state: IceTransportState) {
+    inner.state.send_if_modified(|cur| {
+        if *cur == IceTransportState::Closed {
+            false
+        } else {
+            *cur = state;
+            true
+        }
+    });
+}
+
 async fn perform_connectivity_checks_async(inner: Arc<IceTransportInner>) {
     let state = *inner.state.borrow();
     if state != IceTransportState::Checking {
@@ -1865,7 +1880,7 @@ async fn perform_connectivity_checks_async(inner: Arc<IceTransportInner>) {
 
     if role == IceRole::Controlling {
         // Signal Connected so the PeerConnection starts waiting for nomination_complete.
-        let _ = inner.state.send(IceTransportState::Connected);
+        set_state_unless_closed(&inner, IceTransportState::Connected);
 
         // Launch ALL nomination checks in parallel, but select the
         // highest-priority pair that succeeds — not merely the first one to
@@ -1975,7 +1990,7 @@ async fn perform_connectivity_checks_async(inner: Arc<IceTransportInner>) {
                 successful_pairs.len()
             );
             let _ = inner.nomination_complete.send(Some(false));
-            let _ = inner.state.send(IceTransportState::Failed);
+            set_state_unless_closed(&inner, IceTransportState::Failed);
         }
     } else {
         // Controlled side: select best pair but don't nominate.
@@ -1997,7 +2012,7 @@ async fn perform_connectivity_checks_async(inner: Arc<IceTransportInner>) {
             let _ = inner.selected_socket.send(Some(socket.clone()));
             publish_selected_rtcp_socket(&inner, Some(socket));
         }
-        let _ = inner.state.send(IceTransportState::Connected);
+        set_state_unless_closed(&inner, IceTransportState::Connected);
         if pair.local.transport == "tcp" {
             let _ = inner.nomination_complete.send(Some(true));
         }
@@ -2120,7 +2135,7 @@ async fn complete_controlled_inbound_tcp_nomination(
         *inner.selected_pair.lock() = Some(pair.clone());
         let _ = inner.selected_pair_notifier.send(Some(pair.clone()));
         publish_selected_socket(&inner, &pair, Some(sender));
-        let _ = inner.state.send(IceTransportState::Connected);
+        set_state_unless_closed(&inner, IceTransportState::Connected);
     } else {
         debug!(
             "Inbound TCP nomination: synthesizing pair for {} -> {}",
@@ -2141,7 +2156,7 @@ async fn complete_controlled_inbound_tcp_nomination(
             *inner.selected_pair.lock() = Some(pair.clone());
             let _ = inner.selected_pair_notifier.send(Some(pair.clone()));
             publish_selected_socket(&inner, &pair, Some(sender));
-            let _ = inner.state.send(IceTransportState::Connected);
+            set_state_unless_closed(&inner, IceTransportState::Connected);
         } else {
             let _ = inner.selected_socket.send(Some(sender.clone()));
             publish_selected_rtcp_socket(&inner, Some(sender.clone()));
@@ -2600,7 +2615,7 @@ async fn handle_stun_request(
                         pair.local.address, pair.remote.address
                     );
                 }
-                let _ = inner.state.send(IceTransportState::Connected);
+                set_state_unless_closed(&inner, IceTransportState::Connected);
                 let _ = inner.nomination_complete.send(Some(true));
             } else {
                 debug!(
